@@ -12,6 +12,7 @@ import (
 
 	"github.com/nyaruka/gocommon/dates"
 	"github.com/nyaruka/goflow/contactql"
+	"github.com/nyaruka/goflow/envs"
 	"github.com/nyaruka/goflow/flows"
 	"github.com/nyaruka/goflow/flows/modifiers"
 
@@ -221,7 +222,18 @@ func oracleC03Direct(res *hx.Result, in *directInput, a1, a2 *application) {
 // "the contact belongs to a query-based group exactly when it is active and the group's query matches its current
 //  attributes, fields and URNs"  (Group.CheckQueryBasedMembership is exactly "active and the query matches")
 
-func (u *universe) membershipErrors(c *flows.Contact) []string {
+func (u *universe) membershipErrors(c *flows.Contact) []string { return u.membershipErrorsEnv(c, u.env) }
+
+func containsStr(xs []string, x string) bool {
+	for _, y := range xs {
+		if x == y {
+			return true
+		}
+	}
+	return false
+}
+
+func (u *universe) membershipErrorsEnv(c *flows.Contact, env envs.Environment) []string {
 	var errs []string
 	for i, g := range u.spec.Groups {
 		if g.Query == "" {
@@ -234,7 +246,7 @@ func (u *universe) membershipErrors(c *flows.Contact) []string {
 		if err != nil {
 			panic(err)
 		}
-		want := c.Status() == flows.ContactStatusActive && contactql.EvaluateQuery(u.env, q, c)
+		want := c.Status() == flows.ContactStatusActive && contactql.EvaluateQuery(env, q, c)
 		if in != want {
 			errs = append(errs, fmt.Sprintf("group %s (%s): member=%v, active-and-matches=%v", g.Name, g.Query, in, want))
 		}
